@@ -7,6 +7,7 @@ import (
 	"fmt"
 	"math/rand"
 	"os"
+	"sort"
 	"strconv"
 	"strings"
 
@@ -63,8 +64,39 @@ func c17RandomSheet(rnd *rand.Rand, maxCells int, wide bool) (merges [][4]int, c
 		return r
 	}
 	overlap := func(a, b [4]int) bool { return !(a[2] < b[0] || b[2] < a[0] || a[3] < b[1] || b[3] < a[1]) }
-	for k := rnd.Intn(4); k > 0; k-- {
+	taken := map[[2]int]bool{}
+	n := 1 + rnd.Intn(maxCells)
+	maxC, maxR := 0, 0
+	for len(cells) < n {
+		c, r := clampC(c0+1+rnd.Intn(w+2)), clampR(r0+1+rnd.Intn(h+2))
+		if wide && rnd.Intn(25) == 0 {
+			c, r = 1+rnd.Intn(702), 1+rnd.Intn(200)
+		}
+		if taken[[2]int{c, r}] {
+			if len(taken) >= (w+2)*(h+2) {
+				break
+			}
+			continue
+		}
+		taken[[2]int{c, r}] = true
+		if c > maxC {
+			maxC = c
+		}
+		if r > maxR {
+			maxR = r
+		}
+		cells = append(cells, c17Item{C: c, R: r, T: c17Kinds[rnd.Intn(len(c17Kinds))]})
+	}
+	// merged regions anywhere around the cells, and regions anchored on the last populated
+	// row / column, reaching beyond the populated extent or lying entirely on its edge
+	for k := rnd.Intn(5); k > 0; k-- {
 		c1, r1 := c0+1+rnd.Intn(w), r0+1+rnd.Intn(h)
+		switch rnd.Intn(4) {
+		case 0:
+			c1 = maxC
+		case 1:
+			r1 = maxR
+		}
 		m := [4]int{clampC(c1), clampR(r1), clampC(c1 + rnd.Intn(3)), clampR(r1 + rnd.Intn(3))}
 		if m[0] == m[2] && m[1] == m[3] {
 			continue
@@ -79,27 +111,13 @@ func c17RandomSheet(rnd *rand.Rand, maxCells int, wide bool) (merges [][4]int, c
 			merges = append(merges, m)
 		}
 	}
-	taken := map[[2]int]bool{}
-	n := 1 + rnd.Intn(maxCells)
-	for len(cells) < n {
-		c, r := clampC(c0+1+rnd.Intn(w+2)), clampR(r0+1+rnd.Intn(h+2))
-		if wide && rnd.Intn(25) == 0 {
-			c, r = 1+rnd.Intn(702), 1+rnd.Intn(200)
-		}
-		if taken[[2]int{c, r}] {
-			if len(taken) >= (w+2)*(h+2) {
-				break
-			}
-			continue
-		}
-		taken[[2]int{c, r}] = true
-		t := c17Kinds[rnd.Intn(len(c17Kinds))]
+	// covered cells: half of them keep their (stale) value in the file, half are blank elements
+	for i, it := range cells {
 		for _, m := range merges {
-			if c >= m[0] && c <= m[2] && r >= m[1] && r <= m[3] && !(c == m[0] && r == m[1]) {
-				t = "z"
+			if it.C >= m[0] && it.C <= m[2] && it.R >= m[1] && it.R <= m[3] && !(it.C == m[0] && it.R == m[1]) && rnd.Intn(2) == 0 {
+				cells[i].T = "z"
 			}
 		}
-		cells = append(cells, c17Item{C: c, R: r, T: t})
 	}
 	return merges, cells
 }
@@ -159,8 +177,11 @@ func c17Record(i int, raw []byte) Result {
 		exps := make([][]c17Exp, nsh)
 		covered := make([][]c17Pos, nsh)
 		kinds := make([]map[c17Pos]string, nsh)
+		mexp := make([][]c17Merge, nsh)
+		stale := make([]map[c17Disp]bool, nsh)
 		for s := 0; s < nsh; s++ {
 			kinds[s] = map[c17Pos]string{}
+			stale[s] = map[c17Disp]bool{}
 			if s > 0 {
 				events = append(events, Event{"event": "NewSheet"})
 			}
@@ -172,6 +193,7 @@ func c17Record(i int, raw []byte) Result {
 			for _, m := range merges {
 				events = append(events, Event{"event": "Merge", "m": []int{m[0], m[1], m[2], m[3]}})
 				xs.Merges = append(xs.Merges, xlsxRef(m[0], m[1])+":"+xlsxRef(m[2], m[3]))
+				mexp[s] = append(mexp[s], c17Merge{Rect: []int{m[0], m[1], m[2], m[3]}, Rows: m[3] - m[1] + 1, Cols: m[2] - m[0] + 1})
 				for c := m[0]; c <= m[2]; c++ {
 					for r := m[1]; r <= m[3]; r++ {
 						if c != m[0] || r != m[1] {
@@ -187,8 +209,17 @@ func c17Record(i int, raw []byte) Result {
 				events = append(events, Event{"event": "Write", "c": it.C, "r": it.R, "t": it.T, "v": it.V})
 				d := c17Shown(it.T, it.V)
 				kinds[s][c17Pos{it.C, it.R}] = it.T
-				if it.T != "z" {
+				hidden := false
+				for _, m := range merges {
+					if it.C >= m[0] && it.C <= m[2] && it.R >= m[1] && it.R <= m[3] && !(it.C == m[0] && it.R == m[1]) {
+						hidden = true
+					}
+				}
+				if it.T != "z" && !hidden {
 					exps[s] = append(exps[s], c17Exp{C: it.C, R: it.R, D: d})
+				}
+				if it.T != "z" && hidden {
+					stale[s][d] = true
 				}
 				ri, ok := rowIdx[it.R]
 				if !ok {
@@ -227,13 +258,16 @@ func c17Record(i int, raw []byte) Result {
 		vw := c17Observe(path, exps)
 		os.Remove(path)
 		// not a verdict: only names the signature should TLC reject the segment
-		if m := c17Check(vw, exps, covered, kinds, rowR); m != nil {
+		if m := c17Check(vw, exps, covered, kinds, rowR, mexp, stale); m != nil {
 			reset["hint"] = m.View + ":" + m.Symptom
 		}
 		for _, view := range []struct {
 			name string
 			obs  [][]c17Obs
-		}{{"grid", vw.Grid}, {"tsv", vw.Tsv}, {"md", vw.Md}, {"doc", vw.Doc}} {
+		}{{"grid", vw.Grid}, {"tables", vw.Tables}, {"tsv", vw.Tsv}, {"md", vw.Md}, {"doc", vw.Doc}} {
+			if view.name == "tables" && vw.Tables == nil {
+				continue
+			}
 			if e, ok := vw.Err[view.name]; ok {
 				events = append(events, Event{"event": "Error", "view": view.name, "msg": e})
 				continue
@@ -251,6 +285,21 @@ func c17Record(i int, raw []byte) Result {
 						"d": map[string]interface{}{"k": o.D.K, "v": o.D.V}, "raw": o.Raw})
 				}
 			}
+		}
+		// merge metadata of the grid
+		for s := 0; s < nsh && s < len(vw.Flags); s++ {
+			roots := make([]c17Pos, 0, len(vw.Flags[s].Roots))
+			for p := range vw.Flags[s].Roots {
+				roots = append(roots, p)
+			}
+			sort.Slice(roots, func(a, b int) bool {
+				return roots[a].R < roots[b].R || (roots[a].R == roots[b].R && roots[a].C < roots[b].C)
+			})
+			for _, p := range roots {
+				sp := vw.Flags[s].Roots[p]
+				events = append(events, Event{"event": "Span", "sh": s + 1, "c": p.C, "r": p.R, "rows": sp[0], "cols": sp[1]})
+			}
+			events = append(events, Event{"event": "Spans", "sh": s + 1, "n": len(roots)})
 		}
 		for _, a := range vw.Accessor {
 			events = append(events, Event{"event": "Error", "view": "grid", "msg": a})
